@@ -156,6 +156,15 @@ Definition ignore_pool : list string :=
 Definition cfg_good (cfg : mconfig) : bool := forallb (fun p => smem p ignore_pool) (c_ignore cfg).
 
 (* ------------------------------------------------------------------ admissible inputs *)
+(* File names: ANY path for TypeScript / JavaScript and Rust; for Python any path whose last segment is <stem>.py with no
+   dot inside the stem (so `a_test.py.py`, on which "contains _test.py" and the documented `*_test.py` differ, is outside). *)
+Definition dot_free (s : list ascii) : bool := negb (existsb (Ascii.eqb c_dot) s).
+Definition py_base_ok (b : list ascii) : bool :=
+  ends_with (chars ".py") b && dot_free (firstn (List.length b - List.length (chars ".py")) b).
+Definition name_good (lg : mlang) (name : string) : bool :=
+  match lg with MPy => py_base_ok (basename name) | _ => true end.
+
+(* names the generator always includes (plain, test-named, constants modules, look-alikes) *)
 Definition name_pool (lg : mlang) : list string :=
   match lg with
   | MPy => ["/case.py"; "/util/helpers.py"; "/test_case.py"; "/case_test.py"; "/tests/helper.py"; "/constants.py";
@@ -194,7 +203,10 @@ Definition lit_ok (lg : mlang) (l : lit) : bool :=
                     || match r with RDec => suffix_in sfx float_suffixes | _ => false end)
        end
   | LFloat ip fp ex sfx =>
-    digits_ok 10 ip && no_leading_zero ip
+    match ip with
+    | [] => match lg, fp with MRs, _ => false | _, [] => false | _, _ => true end      (* .5 (Python, TypeScript / JavaScript) *)
+    | _ => digits_ok 10 ip
+    end && no_leading_zero ip
     && match fp with [] => true | _ => digits_ok 10 fp end
     && match ex with Some (_, ds) => digits_ok 10 ds | None => true end
     && match fp, ex with [], None => false | _, _ => true end
@@ -251,4 +263,4 @@ Definition scope_good (lg : mlang) (sc : scope) : bool :=
      end.
 
 Definition file_good (lg : mlang) (f : file) : bool :=
-  smem (f_name f) (name_pool lg) && forallb (scope_good lg) (f_scopes f).
+  name_good lg (f_name f) && forallb (scope_good lg) (f_scopes f).
